@@ -148,7 +148,7 @@ UpdateParams_E(s, e) == [s EXCEPT !.params = e.params]
 UpdateParams_R(s, e) == [ok |-> TRUE]
 
 SpendFeePool_G(s, e) ==
-  [ valid     |-> ValidAddr(e.signer) /\ ValidAddr(e.to) /\ ValidDenom(e.denom) /\ e.amt >= 0,
+  [ valid     |-> ValidAddr(e.signer) /\ ValidAddr(e.to) /\ ValidDenom(e.denom) /\ e.amt > 0,    \* a coin list with a zero entry is not valid
     authority |-> e.signer = Authority,
     covered   |-> (ValidAddr(e.to) /\ ValidDenom(e.denom)) => (Bal(s, FeeCollector, e.denom) >= e.amt /\ e.to \notin Blocked) ]
 SpendFeePool_E(s, e) == [s EXCEPT !.bal = MoveB(@, FeeCollector, e.to, e.denom, e.amt)]
@@ -227,9 +227,9 @@ Step(s, e) ==
     failed |-> FalseOnes(g) ]
 
 (* accounts x denoms grid; `funded` maps account -> denom -> units held at genesis (native tokens) *)
-InitState(accts, denoms, funded, params, cap, devs) ==
+InitState(accts, denoms, natives, funded, params, cap, devs) ==
   [ seqL1 |-> 1, seqL2 |-> 1, cap |-> cap, devs |-> [d \in devs |-> TRUE],
-    pairs |-> EmptyMap, meta |-> EmptyMap,
+    pairs |-> EmptyMap, meta |-> [d \in natives |-> d],      \* native L2 tokens carry bank metadata of their own
     bal    |-> [a \in accts |-> [d \in denoms |-> IF Has(funded, a) /\ Has(funded[a], d) THEN funded[a][d] ELSE 0]],
     supply |-> [d \in denoms |-> LET S == {a \in DOMAIN funded : Has(funded[a], d)} IN
                                   IF S = {} THEN 0 ELSE LET RECURSIVE Sum(_) Sum(T) == IF T = {} THEN 0 ELSE LET x == CHOOSE y \in T : TRUE IN funded[x][d] + Sum(T \ {x}) IN Sum(S)],
